@@ -4,6 +4,7 @@ package main
 // replay through `go test -overlay`.
 
 import (
+	"sync"
 	"encoding/json"
 	"fmt"
 	"go/token"
@@ -41,6 +42,8 @@ type Loaded struct {
 	overlayFiles map[string]string
 	tmp          string
 	loadTime     time.Duration
+	watchdog     string // when set, native replays run under this watchdog (termination probes)
+	wdMu         sync.Mutex
 }
 
 func (l *Loaded) pos(p token.Pos) string {
@@ -226,19 +229,21 @@ type NativeResult struct {
 	Panic   string            `json:"panic"`
 	Post    map[string]uint64 `json:"post"`
 	Harness string            `json:"harness"`
+	Hang    bool              `json:"hang"`
 }
 
 // nativeTestSrc generates the _test.go driver for package dir.
 func (l *Loaded) nativeTestSrc(dir string) string {
 	info := harnessPkgs[dir]
 	var sb strings.Builder
-	fmt.Fprintf(&sb, "package %s\n\nimport (\n\t\"bufio\"\n\t\"encoding/json\"\n\t\"fmt\"\n\t\"os\"\n\t\"testing\"\n)\n\n", info[1])
+	fmt.Fprintf(&sb, "package %s\n\nimport (\n\t\"bufio\"\n\t\"encoding/json\"\n\t\"fmt\"\n\t\"os\"\n\t\"testing\"\n\t\"time\"\n)\n\n", info[1])
 	sb.WriteString(`type vNativeResult struct {
 	Failed  []string          ` + "`json:\"failed\"`" + `
 	Unmet   int               ` + "`json:\"unmet\"`" + `
 	Panic   string            ` + "`json:\"panic\"`" + `
 	Post    map[string]uint64 ` + "`json:\"post\"`" + `
 	Harness string            ` + "`json:\"harness\"`" + `
+	Hang    bool              ` + "`json:\"hang\"`" + `
 }
 
 func vRunOne(path string) (res vNativeResult) {
@@ -300,7 +305,29 @@ func TestVReplay(t *testing.T) {
 	defer w.Flush()
 	sc := bufio.NewScanner(f)
 	for sc.Scan() {
-		res := vRunOne(sc.Text())
+		var res vNativeResult
+		if wd := os.Getenv("VERIF_REPLAY_WATCHDOG"); wd != "" {
+			// termination probe: the harness runs under a watchdog; if it has not come
+			// back in time the result says so and the process ends (the harness
+			// goroutine is still spinning)
+			d, _ := time.ParseDuration(wd)
+			done := make(chan vNativeResult, 1)
+			path := sc.Text()
+			go func() { done <- vRunOne(path) }()
+			select {
+			case res = <-done:
+			case <-time.After(d):
+				res = vNativeResult{Hang: true, Harness: vReplay.Harness}
+				b, _ := json.Marshal(res)
+				w.Write(b)
+				w.WriteByte('\n')
+				w.Flush()
+				out.Close()
+				os.Exit(0)
+			}
+		} else {
+			res = vRunOne(sc.Text())
+		}
 		b, _ := json.Marshal(res)
 		w.Write(b)
 		w.WriteByte('\n')
@@ -347,6 +374,9 @@ func (l *Loaded) RunNative(dir string, files []string, race bool) ([]NativeResul
 	cmd := exec.Command("go", args...)
 	cmd.Dir = repoDir
 	cmd.Env = append(goEnv(), "VERIF_REPLAY_LIST="+lst, "VERIF_REPLAY_OUT="+outp)
+	if l.watchdog != "" {
+		cmd.Env = append(cmd.Env, "VERIF_REPLAY_WATCHDOG="+l.watchdog)
+	}
 	outb, err := cmd.CombinedOutput()
 	data, rerr := os.ReadFile(outp)
 	if rerr != nil {
